@@ -446,7 +446,39 @@ class Inliner:
                 out.extend(self.inline_statements(rep, cls, depth + 1))
         return out
 
+    def _hoist_nested(self, st: ast.stmt, cls: Optional[str]) -> Optional[List[ast.stmt]]:
+        """`x = A - helper(args)` -> `t = helper(args); x = A - t` when the helper call is the only call of the statement
+        (so nothing that could interfere is evaluated before it)"""
+        if not isinstance(st, (ast.Assign, ast.AnnAssign, ast.AugAssign, ast.Return, ast.Expr)) or getattr(st, "value", None) is None:
+            return None
+        top = st.value
+        calls = [n for n in ast.walk(top) if isinstance(n, ast.Call)]
+        cands = [c for c in calls if c is not top and (h := self._resolve(c, cls)) is not None and not (h.expr is not None and not h.locals) and not h.is_gen]
+        if len(cands) != 1:
+            return None
+        c = cands[0]
+        inner = {id(n) for n in ast.walk(c)}
+        if any(id(x) not in inner for x in calls):
+            return None  # another call in the statement: evaluation order would have to be argued
+        if any(isinstance(n, (ast.Lambda, ast.ListComp, ast.SetComp, ast.DictComp, ast.GeneratorExp, ast.IfExp, ast.BoolOp)) and any(y is c for y in ast.walk(n)) for n in ast.walk(top)):
+            return None  # conditionally or repeatedly evaluated position
+        self.counter += 1
+        tmp = f"value__{self.counter}"
+
+        class R(ast.NodeTransformer):
+            def visit_Call(self, node):
+                if node is c:
+                    return ast.copy_location(ast.Name(id=tmp, ctx=ast.Load()), node)
+                return self.generic_visit(node)
+
+        pre = ast.copy_location(ast.Assign(targets=[ast.Name(id=tmp, ctx=ast.Store())], value=c, lineno=st.lineno), st)
+        st.value = R().visit(top)
+        return [pre, st]
+
     def _inline_one(self, st: ast.stmt, cls: Optional[str]) -> Optional[List[ast.stmt]]:
+        hoisted = self._hoist_nested(st, cls)
+        if hoisted is not None:
+            return hoisted
         call = None
         mode = None
         if isinstance(st, ast.Expr) and isinstance(st.value, ast.Call):
@@ -518,6 +550,15 @@ def _comprehension_to_loop(stmts: List[ast.stmt], inl: Inliner, cls: Optional[st
         if isinstance(st, ast.Try):
             for hd in st.handlers:
                 hd.body = _comprehension_to_loop(hd.body, inl, cls)
+        if isinstance(st, ast.Return) and isinstance(st.value, ast.ListComp) and len(st.value.generators) == 1 and isinstance(st.value.elt, ast.Call) \
+                and (h0 := inl._resolve(st.value.elt, cls)) is not None and (h0.expr is None or h0.locals):
+            inl.counter += 1
+            name = f"result__{inl.counter}"
+            assign = ast.copy_location(ast.Assign(targets=[ast.Name(id=name, ctx=ast.Store())], value=st.value, lineno=st.lineno), st)
+            ret = ast.copy_location(ast.Return(value=ast.Name(id=name, ctx=ast.Load())), st)
+            out.extend(_comprehension_to_loop([assign], inl, cls))
+            out.append(ret)
+            continue
         v = getattr(st, "value", None) if isinstance(st, (ast.Assign, ast.AnnAssign)) else None
         tgt = None
         if isinstance(st, ast.Assign) and len(st.targets) == 1 and isinstance(st.targets[0], ast.Name):
@@ -551,6 +592,204 @@ def _set_store(t):
 
 # ---------------------------------------------------------------------------------------------------------------------
 
+# ---------------------------------------------------------------------------------------------------------------------
+# N6 tuple-assignment splitting and elimination of pure aliases (only on code produced by inlining: names carrying the
+# inliner's tag), so that `n, d = (n__h1, d__h1)` reads as if n and d had been computed in place
+
+def _split_tuple_assigns(stmts: List[ast.stmt]) -> List[ast.stmt]:
+    out: List[ast.stmt] = []
+    for st in stmts:
+        for field in ("body", "orelse", "finalbody"):
+            sub = getattr(st, field, None)
+            if isinstance(sub, list) and sub and isinstance(sub[0], ast.stmt) and not isinstance(st, ast.ClassDef):
+                setattr(st, field, _split_tuple_assigns(sub))
+            elif isinstance(st, ast.ClassDef) and field == "body":
+                st.body = _split_tuple_assigns(st.body)
+        if isinstance(st, ast.Try):
+            for hd in st.handlers:
+                hd.body = _split_tuple_assigns(hd.body)
+        if isinstance(st, ast.Assign) and len(st.targets) == 1 and isinstance(st.targets[0], ast.Tuple) and isinstance(st.value, ast.Tuple) \
+                and len(st.targets[0].elts) == len(st.value.elts) and all(isinstance(t, ast.Name) for t in st.targets[0].elts) \
+                and all(isinstance(v, ast.Name) and "__" in v.id for v in st.value.elts):
+            tnames = {t.id for t in st.targets[0].elts}
+            if not any(isinstance(n, ast.Name) and n.id in tnames for v in st.value.elts for n in ast.walk(v)):
+                for t, v in zip(st.targets[0].elts, st.value.elts):
+                    out.append(ast.copy_location(ast.Assign(targets=[t], value=v, lineno=st.lineno), st))
+                continue
+        out.append(st)
+    return out
+
+
+def _eliminate_aliases(fn):
+    """x = y__tag (x, y__tag each bound exactly once in fn, y__tag produced by the inliner) -> y__tag is renamed x and the copy dropped"""
+    binds: Dict[str, int] = {}
+    for n in _walk_own(fn):
+        if isinstance(n, ast.Name) and isinstance(n.ctx, (ast.Store, ast.Del)):
+            binds[n.id] = binds.get(n.id, 0) + 1
+        elif isinstance(n, ast.arg):
+            binds[n.arg] = binds.get(n.arg, 0) + 1
+    ren: Dict[str, str] = {}
+
+    def mentions(node, name) -> bool:
+        return any(isinstance(x, ast.Name) and x.id == name for x in ast.walk(node))
+
+    def scan(stmts):
+        keep = []
+        for st in stmts:
+            for field in ("body", "orelse", "finalbody"):
+                sub = getattr(st, field, None)
+                if isinstance(sub, list) and sub and isinstance(sub[0], ast.stmt) and not isinstance(st, FDEFS + (ast.ClassDef,)):
+                    setattr(st, field, scan(sub) or [ast.copy_location(ast.Pass(), st)])
+            if isinstance(st, ast.Assign) and len(st.targets) == 1 and isinstance(st.targets[0], ast.Name) and isinstance(st.value, ast.Name) \
+                    and "__" in st.value.id and binds.get(st.value.id) == 1 and st.value.id not in ren:
+                tagged, target = st.value.id, st.targets[0].id
+                # the tagged name is defined earlier in this block; the target name must not occur between that definition and the copy
+                idx = next((k for k in range(len(keep) - 1, -1, -1) if isinstance(keep[k], (ast.Assign, ast.AnnAssign)) and any(
+                    isinstance(t, ast.Name) and t.id == tagged for t in (keep[k].targets if isinstance(keep[k], ast.Assign) else [keep[k].target]))), None)
+                if idx is not None and not any(mentions(x, target) for x in keep[idx:]):
+                    ren[tagged] = target
+                    continue
+            keep.append(st)
+        return keep
+
+    fn.body = scan(fn.body) or [ast.Pass()]
+    if ren:
+        for n in _walk_own(fn):
+            if isinstance(n, ast.Name) and n.id in ren:
+                n.id = ren[n.id]
+
+
+# ---------------------------------------------------------------------------------------------------------------------
+# N7 accumulate-by-append loops -> comprehensions;  N8 folding of locals that only name a stable value
+
+def _loops_to_comprehensions(stmts: List[ast.stmt]) -> List[ast.stmt]:
+    """L = [] ... for T in IT: [if C:] L.append(E)   ->   L = [E for T in IT if C]
+    (L not read or written between its initialisation and the loop, nor inside the loop other than by the append)"""
+    for st in stmts:
+        for field in ("body", "orelse", "finalbody"):
+            sub = getattr(st, field, None)
+            if isinstance(sub, list) and sub and isinstance(sub[0], ast.stmt):
+                setattr(st, field, _loops_to_comprehensions(sub))
+        if isinstance(st, ast.Try):
+            for hd in st.handlers:
+                hd.body = _loops_to_comprehensions(hd.body)
+    out = list(stmts)
+    i = 0
+    while i < len(out):
+        st = out[i]
+        name = None
+        if isinstance(st, ast.Assign) and len(st.targets) == 1 and isinstance(st.targets[0], ast.Name) and isinstance(st.value, ast.List) and not st.value.elts:
+            name = st.targets[0].id
+        elif isinstance(st, ast.AnnAssign) and isinstance(st.target, ast.Name) and isinstance(st.value, ast.List) and not st.value.elts:
+            name = st.target.id
+        if name is not None:
+            j = i + 1
+            while j < len(out) and not any(isinstance(n, ast.Name) and n.id == name for n in ast.walk(out[j])):
+                j += 1
+            if j < len(out) and isinstance(out[j], ast.For) and not out[j].orelse:
+                loop = out[j]
+                body = loop.body
+                conds = []
+                while len(body) == 1 and isinstance(body[0], ast.If) and not body[0].orelse:
+                    conds.append(body[0].test)
+                    body = body[0].body
+                if len(body) == 1 and isinstance(body[0], ast.Expr) and isinstance(body[0].value, ast.Call) and isinstance(body[0].value.func, ast.Attribute) \
+                        and body[0].value.func.attr == "append" and isinstance(body[0].value.func.value, ast.Name) and body[0].value.func.value.id == name \
+                        and len(body[0].value.args) == 1 and not body[0].value.keywords:
+                    elt = body[0].value.args[0]
+                    others = [n for part in [elt, loop.iter, loop.target] + conds for n in ast.walk(part) if isinstance(n, ast.Name) and n.id == name]
+                    if not others:
+                        tgt = copy.deepcopy(loop.target)
+                        comp = ast.ListComp(elt=elt, generators=[ast.comprehension(target=tgt, iter=loop.iter, ifs=conds, is_async=0)])
+                        new = ast.copy_location(ast.Assign(targets=[ast.Name(id=name, ctx=ast.Store())], value=ast.copy_location(comp, loop), lineno=st.lineno), st) \
+                            if isinstance(st, ast.Assign) else ast.copy_location(ast.AnnAssign(target=st.target, annotation=st.annotation, value=ast.copy_location(comp, loop), simple=st.simple), st)
+                        # the comprehension is evaluated where the loop stood (the statements in between do not mention L)
+                        out = out[:i] + out[i + 1:j] + [new] + out[j + 1:]
+                        continue
+        i += 1
+    return out
+
+
+def _fold_stable_aliases(fn):
+    """t = self.a.b  (t bound once; self.a.b and its prefixes never assigned in fn) -> uses of t read self.a.b directly;
+    t = <constant expression> (t bound once) likewise.  Applied to every function: it removes locals that only name a value."""
+    binds: Dict[str, int] = {}
+    for n in _walk_own(fn):
+        if isinstance(n, ast.Name) and isinstance(n.ctx, (ast.Store, ast.Del)):
+            binds[n.id] = binds.get(n.id, 0) + 1
+    params = {a.arg for a in ast.walk(fn.args) if isinstance(a, ast.arg)}
+    stored_chains = set()
+    for n in ast.walk(fn):
+        if isinstance(n, ast.Attribute) and isinstance(n.ctx, (ast.Store, ast.Del)):
+            stored_chains.add(ast.unparse(n))
+        if isinstance(n, ast.Call) and isinstance(n.func, ast.Name) and n.func.id in ("setattr", "delattr"):
+            stored_chains.add("*")
+    nested_uses = set()
+    for n in ast.walk(fn):
+        if n is not fn and isinstance(n, FDEFS + (ast.Lambda,)):
+            nested_uses.update(x.id for x in ast.walk(n) if isinstance(x, ast.Name))
+
+    def is_chain(e):
+        x = e
+        while isinstance(x, ast.Attribute):
+            x = x.value
+        return isinstance(e, ast.Attribute) and isinstance(x, ast.Name) and x.id == "self"
+
+    def is_const(e):
+        if isinstance(e, ast.Constant):
+            return isinstance(e.value, (int, float)) and not isinstance(e.value, bool)
+        if isinstance(e, ast.UnaryOp) and isinstance(e.op, (ast.USub, ast.UAdd)):
+            return is_const(e.operand)
+        if isinstance(e, ast.BinOp) and isinstance(e.op, (ast.Add, ast.Sub, ast.Mult, ast.Pow, ast.FloorDiv, ast.LShift)):
+            return is_const(e.left) and is_const(e.right)
+        if isinstance(e, ast.Name):
+            return e.id.isupper() and e.id not in binds and e.id not in params
+        return False
+
+    folds: Dict[str, ast.AST] = {}
+
+    def scan(stmts):
+        keep = []
+        for st in stmts:
+            for field in ("body", "orelse", "finalbody"):
+                sub = getattr(st, field, None)
+                if isinstance(sub, list) and sub and isinstance(sub[0], ast.stmt) and not isinstance(st, FDEFS + (ast.ClassDef,)):
+                    setattr(st, field, scan(sub) or [ast.copy_location(ast.Pass(), st)])
+            if isinstance(st, ast.Try):
+                for hd in st.handlers:
+                    hd.body = scan(hd.body) or [ast.copy_location(ast.Pass(), st)]
+            if isinstance(st, ast.Assign) and len(st.targets) == 1 and isinstance(st.targets[0], ast.Name):
+                t = st.targets[0].id
+                if binds.get(t) == 1 and t not in params and t not in nested_uses and "*" not in stored_chains:
+                    v = st.value
+                    if is_chain(v):
+                        txt = ast.unparse(v)
+                        if not any(txt == c or txt.startswith(c + ".") for c in stored_chains):
+                            folds[t] = v
+                            continue
+                    elif is_const(v) and not isinstance(v, (ast.Constant, ast.Name)):
+                        folds[t] = v
+                        continue
+            keep.append(st)
+        return keep
+
+    fn.body = scan(fn.body) or [ast.Pass()]
+    if folds:
+        class R(ast.NodeTransformer):
+            def visit_Name(self, n):
+                if n.id in folds and isinstance(n.ctx, ast.Load):
+                    return ast.copy_location(copy.deepcopy(folds[n.id]), n)
+                return n
+
+            def visit_FunctionDef(self, f):
+                return f
+
+            visit_AsyncFunctionDef = visit_FunctionDef
+            visit_Lambda = visit_FunctionDef
+
+        fn.body = [R().visit(s) for s in fn.body]
+
+
 def normalise_module(module_name: str, tree: ast.Module) -> ast.Module:
     tree = _Isinstance().visit(tree)
     _swap_negative_ifs(tree)
@@ -568,7 +807,15 @@ def normalise_module(module_name: str, tree: ast.Module) -> ast.Module:
             if isinstance(st, FDEFS):
                 inl.inline_expressions(st, None)
         tree.body = inl.inline_statements(tree.body, None)
+        tree.body = _split_tuple_assigns(tree.body)
+        for n in ast.walk(tree):
+            if isinstance(n, FDEFS):
+                _eliminate_aliases(n)
         _swap_negative_ifs(tree)
     tree.body = _flatten_block(tree.body)
+    for n in ast.walk(tree):
+        if isinstance(n, FDEFS):
+            n.body = _loops_to_comprehensions(n.body)
+            _fold_stable_aliases(n)
     ast.fix_missing_locations(tree)
     return tree
